@@ -85,10 +85,25 @@ def run(ck):
         names = [rng.choice([n, n.lower(), n.upper()]) for n in names]
         names = [n if not n.startswith(b'~') else b'T' + n for n in names]     # a leading ~ is tilde-expanded in configuration strings
         pat = rng.choice(PATTERNS)
-        icase = rng.randrange(3) == 0
+        if rng.randrange(2) == 0 and b'\\' not in pat and b'[' not in pat:
+            pat = pat.upper() if rng.randrange(2) else pat.title()      # the i flag then decides
+        icase = rng.randrange(2) == 0
         delim = b'/' if b'/' not in pat else b'@'
         hdr = mdrun.conf_quote(names[0]) if len(names) == 1 else b'{ ' + b' '.join(mdrun.conf_quote(n) for n in names) + b' }'
-        conf = b'maildir "%s" {\n match header %s %s%s%s%s move "%s"\n}\n' % (src.encode(), hdr, delim, pat, delim, b'i' if icase else b'', dst.encode())
+        # conditions do not influence each other: the same pattern text with the OPPOSITE i flag in an earlier rule / an earlier
+        # condition of the same rule, on a field no message has, changes nothing
+        decoy = b'header "X-Never-Present" %s%s%s%s' % (delim, pat, delim, b'' if icase else b'i')
+        variant = round_ % 3
+        if variant == 1:
+            other = sb.maildir('other')
+            pre = b' match %s move "%s"\n' % (decoy, other.encode())
+            cond_pre = b''
+        elif variant == 2:
+            pre = b''
+            cond_pre = decoy + b' or '
+        else:
+            pre = b''; cond_pre = b''
+        conf = b'maildir "%s" {\n%s match %sheader %s %s%s%s%s move "%s"\n}\n' % (src.encode(), pre, cond_pre, hdr, delim, pat, delim, b'i' if icase else b'', dst.encode())
         cp = sb.write_conf(conf)
         rc, out, err = sb.run([], conf=cp)
         moved = set(text for text in sb.snapshot(dst).values())
@@ -131,9 +146,9 @@ def run(ck):
     ck.coverage.update({
         'evaluations': stats['evals'],
         'distinct_nontrivial': len(stats['nontrivial']),
-        'rule': 'get_header for 2-6 names (present in other case, absent, prefix-extended) on msggen well-formed messages; binary: single-rule '
+        'rule': 'get_header for 2-6 names (present in other case, absent, prefix-extended) on msggen well-formed messages; binary: a rule '
                 '"header {1-3 names} /ERE/[i] move" from a 24-pattern family over 30 messages per round, match decided by the platform regexec '
-                'on the decoded values; non-trivial = the queried name has at least one occurrence; distinct = distinct (message, name)',
+                'on the decoded values; in two rounds of three an earlier rule / an earlier or-ed condition carries the same pattern text with the opposite i flag on a field no message has; non-trivial = the queried name has at least one occurrence; distinct = distinct (message, name)',
         'samples': samples,
         'traces_validated_against_impl': stats['evals'],
         'disagreements_checked': stats['dis'],
